@@ -172,6 +172,11 @@ def run(chk, replay=None):
              what="a class-valued non-SymPy attribute replaced by a sympy.Lambda that carries a free symbol; substitutions hitting that symbol")
     if not crecs:
         raise Machinery("no class with a symbolic non-SymPy attribute could be built")
+    from ..expr_carrier import default_argument_records
+
+    drecs, dctx, dskipped = default_argument_records(embs, start_id=max(r["id"] for r in recs) + 1, ops=("subst",))
+    recs, ctx = recs + drecs, {**ctx, **dctx}
+    chk.part("optional_arguments_omitted", records=len(drecs), classes=sorted({v["cls"] for v in dctx.values()}), skipped=dskipped)
     errors = [r for r in recs if r["op"] == "error"]
     good = [r for r in recs if r["op"] != "error"]
     tv = trace.validate("Trace_Expr", good, cfg=TRACE_CFG, timeout=2400)
@@ -181,7 +186,7 @@ def run(chk, replay=None):
              classes=len({ctx[r["id"]]["cls"] for r in good}), operations_raised=len(errors), mixed_map_records=len(mrecs))
     for s in samples:
         chk.sample(s)
-    for need in ("subst_changed", "subst_nested", "identity_nested", "eq_equal", "eq_differ_in_attr_only", "commute_observed"):
+    for need in ("subst_changed", "subst_nested", "identity_nested", "eq_equal", "eq_differ_in_attr_only", "commute_observed", "same_observed"):
         if tv.stats.get(need, 0) == 0:
             raise Machinery(f"vacuous trace: antecedent {need} never held ({tv.stats})")
     byid = {r["id"]: r for r in recs}
@@ -189,7 +194,11 @@ def run(chk, replay=None):
         i = ctx[rid]
         if i.get("carrier"):
             case = {"record": rid, **{k: v for k, v in i.items() if k in ("cls", "obj", "what", "res")}}
-            if i.get("function_pair"):
+            if i.get("defaults_omitted"):
+                chk.violation(f"unevaluated.{i['opname']}:optional-arguments-omitted:{clause}:{i['cls']}", f"{i['cls']}: {i['obj']}.{i['what']} = {i.get('res')} ({clause})", case)
+            elif i.get("keyword_pair"):
+                chk.violation(f"unevaluated.__new__:keyword-construction-differs-from-positional:{i['cls']}", f"{i['cls']}: {i['obj']} built positionally vs {i['res']}: == is {byid[rid]['eq']}, equal hash is {byid[rid]['hash']}", case)
+            elif i.get("function_pair"):
                 chk.violation(f"unevaluated.__eq__:function-valued-attribute:{clause}", f"{i['cls']}: {i['obj']} vs {i['res']}: == is {byid[rid]['eq']}, equal hash is {byid[rid]['hash']}", case)
             elif clause == "SubstThenUnfoldEqualsUnfoldThenSubst":
                 chk.violation(f"unevaluated.{i['opname']}:symbolic-non-sympy-attribute:substitute-then-unfold-differs", f"{i['cls']}: {i['obj']}: {i['what']}", case)
